@@ -5,7 +5,9 @@ package main
 import (
 	"fmt"
 	"go/token"
+	"go/types"
 	"sort"
+	"strconv"
 	"strings"
 
 	"golang.org/x/tools/go/ssa"
@@ -188,8 +190,23 @@ func c10Hash(c *Ctx, m *Module) {
 	for _, blk := range h.Blocks {
 		if ret, ok := blk.Instrs[len(blk.Instrs)-1].(*ssa.Return); ok {
 			rem, _ := strip(ret.Results[0]).(*ssa.BinOp)
+			// x % numHash, or x & (numHash-1) for an unsigned x and numHash a power of two
+			isMod := false
 			if rem != nil && rem.Op == token.REM {
 				if k, isC := constOf(rem.Y); isC && k == numHash {
+					isMod = true
+				}
+			}
+			if rem != nil && rem.Op == token.AND {
+				nh, _ := strconv.ParseInt(numHash, 10, 64)
+				if k, isC := intConst(rem.Y); isC && nh > 0 && nh&(nh-1) == 0 && k == nh-1 {
+					if b, isB := rem.X.Type().Underlying().(*types.Basic); isB && b.Info()&types.IsUnsigned != 0 {
+						isMod = true
+					}
+				}
+			}
+			if isMod {
+				{
 					fx, _ := strip(rem.X).(*ssa.BinOp)
 					p, q, ok := commut(fx, token.XOR)
 					if ok {
